@@ -144,6 +144,124 @@ def t_set_pos_rows(E, window, scroll_ok):
         E.prove(Implies(And(to_row >= top, to_row <= bot), row == to_row), 'inside the window: exact row')
 
 
+class _Page(object):
+    """Text page stand-in: logs every operation; whether the current row already wraps is a symbolic input."""
+    _pyvc_trusted = True
+    def __init__(self, wraps):
+        self._wraps = wraps
+        self.log = []
+    def wraps(self, row):
+        return self._wraps
+    def set_wrap(self, row, wrap):
+        self.log.append(('set_wrap', (row, wrap)))
+    def put_char_attr(self, row, col, char, attr, adjust_end=False):
+        self.log.append(('put_char_attr', (row, col, char, attr)))
+    def scroll_up(self, frm, to, attr):
+        self.log.append(('scroll_up', (frm, to)))
+    def scroll_down(self, frm, to, attr):
+        self.log.append(('scroll_down', (frm, to)))
+    def get_charwidth(self, row, col):
+        return 1
+    def __getattr__(self, k):
+        if k.startswith('__'):
+            raise AttributeError(k)
+        return lambda *a, **kw: 1
+    def collect_updates(self):
+        return self
+    def __enter__(self):
+        return self
+    def __exit__(self, *a):
+        return False
+
+
+def t_write_char(E, window, do_scroll_down):
+    """One printed character, from every cursor state inside the window: where it lands, what scrolls, where
+    the cursor goes. Plain text placement (wrap at the width, scroll only inside the window, rows outside
+    untouched) follows by induction over the characters of the string."""
+    t, W, H, sa = _screen(E, window)
+    page = _Page(E.bool('row already wraps'))
+    t._apage = page
+    row0, col0, ov0 = t.current_row, t.current_col, t.overflow
+    # the overflow position exists only in the last column
+    E.assume(Implies(ov0, col0 == W))
+    top, bot = sa._top, sa._bottom
+    r = E.call(t.write_char, b'x', do_scroll_down)
+    E.prove(not r.raised, 'never raises')
+    if r.raised:
+        return
+    log = page.log
+    puts = [x[1] for x in log if x[0] == 'put_char_attr']
+    ups = [x[1] for x in log if x[0] == 'scroll_up']
+    downs = [x[1] for x in log if x[0] == 'scroll_down']
+    E.prove(len(puts) == 1, 'exactly one character cell is written')
+    if len(puts) != 1:
+        return
+    pr, pc, ch, attr = puts[0]
+    E.prove(ch == b'x' and attr == 7, 'with the character and the current attribute')
+    # where: the cursor cell, or the start of the next row when the line is full (overflow position)
+    E.prove(If(ov0, And(pc == 1, pr == If(row0 < bot, row0 + 1, bot)), And(pr == row0, pc == col0)),
+            'at the cursor cell - or, from the overflow position, at column 1 of the next row (the bottom row after a scroll)')
+    E.prove(And(pr >= top, pr <= bot, pc >= 1, pc <= W), 'inside the scroll window and the screen width')
+    for u in ups:
+        E.prove(And(u[0] == top, u[1] == bot), 'a scroll moves exactly the rows of the window')
+    n_up = len(ups)
+    wraps = page._wraps
+    first_scroll = And(ov0, row0 == bot)
+    second_scroll = And(pc == W, wraps, pr == bot)
+    E.prove(n_up == If(first_scroll, 1, 0) + If(second_scroll, 1, 0),
+            'the window scrolls up exactly when the text moves below its bottom row')
+    if not do_scroll_down:
+        E.prove(downs == [], 'PRINT never pushes rows down to make room (that is the line editor\'s behaviour)')
+    else:
+        E.prove(len(downs) <= 1 and (downs == [] or bool(And(ov0, Not(wraps), row0 < bot))),
+                'rows are pushed down at most once, only when an unwrapped full line continues above the bottom row')
+    # cursor afterwards
+    nr, nc, nov = t.current_row, t.current_col, t.overflow
+    E.prove(And(nr >= top, nr <= bot, nc >= 1, nc <= W), 'the cursor stays inside the window')
+    E.prove(If(pc < W, And(nr == pr - If(second_scroll, 0, 0), nc == pc + 1, Not(nov)),
+               If(wraps, And(nc == 1, Not(nov)), And(nr == pr, nc == W, nov))),
+            'the cursor moves one cell right; in the last column it waits in the overflow position (or moves to a row the line already wraps into)')
+    E.canary(n_up == 0, 'never scrolls')
+
+
+class _TS(object):
+    """TextScreen stand-in for Console.write: records the calls."""
+    _pyvc_trusted = True
+    def __init__(self):
+        self.calls = []
+        self.current_row, self.current_col = 3, 5
+    def set_wrap(self, row, wrap):
+        self.calls.append(('set_wrap', row, wrap))
+    def write_chars(self, chars, do_scroll_down):
+        self.calls.append(('write_chars', bytes(chars) if not isinstance(chars, SBuf) else chars, do_scroll_down))
+    def newline(self, wrap):
+        self.calls.append(('newline', wrap))
+    def set_pos(self, *a, **kw):
+        self.calls.append(('set_pos', a))
+
+
+def t_console_write(E, n):
+    """Console.write hands printable text to the screen in order, unchanged, and never asks for rows to be
+    pushed down (do_scroll_down=False)."""
+    from pcbasic.basic import console as console_mod
+    c = object.__new__(console_mod.Console)
+    ts = _TS()
+    c._text_screen = ts
+    c._io_streams = _Rec()
+    c._sound = _Rec()
+    text = [E.int('ch%d' % i, 32, 126) for i in range(n)]
+    s = SBuf(text, 'bytes') if E.mode == 'symbolic' else bytes(text)
+    r = E.call(c.write, s, False)
+    E.prove(not r.raised, 'never raises')
+    wc = [x for x in ts.calls if x[0] == 'write_chars']
+    got = []
+    for x in wc:
+        got += list(to_cells(x[1]))
+    E.prove(len(got) == n and bool(cells_equal(got, text)), 'the printable characters reach the screen in order, unchanged')
+    E.prove(all(x[2] is False for x in wc), 'and are written without pushing rows down')
+    E.prove([x for x in ts.calls if x[0] in ('newline', 'set_pos')] == [], 'plain text moves the cursor only by being written')
+
+
 def t_locate(E, window, bar):
     t, W, H, sa = _screen(E, window)
     t._bottom_bar = type('B', (), {'visible': bar})()
@@ -217,6 +335,9 @@ TASKS = [
          cases=[{'window': w, 'scroll_ok': s} for w in (True, False) for s in (True, False)]),
     Task('TextScreen.set_pos (rows)', t_set_pos_rows, covers=('scrolled', 'no scroll', 'bottom row'),
          cases=[{'window': w, 'scroll_ok': s} for w in (True, False) for s in (True, False)]),
+    Task('TextScreen.write_char (one printed character)', t_write_char,
+         cases=[{'window': w, 'do_scroll_down': d} for w in (True, False) for d in (False, True)]),
+    Task('Console.write (plain text)', t_console_write, cases=[{'n': n} for n in (1, 3, 8)]),
     Task('TextScreen.locate_', t_locate, covers=('rejected', 'moved'),
          cases=[{'window': w, 'bar': b} for w in (True, False) for b in (True, False)]),
     Task('TextScreen.csrlin_/pos_', t_csrlin_pos, cases=[{'window': w} for w in (True, False)]),
@@ -227,5 +348,5 @@ ASSUMPTIONS = [
     'page buffer (cells, scroll_up) and cursor sprite are recording stand-ins; TextScreen.scroll is the real method',
     'set_pos is called with -width < col <= 2*width (what incr_pos / decr_pos / LOCATE produce)',
 ]
-NOT_COVERED = ['placement of printed text against a reference model (write_char, DBCS, wrap flags)', 'SCREEN(row, col) contents',
+NOT_COVERED = ['double-byte characters and control characters in printed text (TAB, CR/LF, cursor movement characters)', 'SCREEN(row, col) contents',
                'rows outside the window unchanged (VideoBuffer.scroll_up itself)']
